@@ -236,11 +236,13 @@ def _save_body(ctx, col):
     owner, fn = ctx.ct.require(cm, "save")
     params = [a.arg for a in fn.args.args if a.arg != "self"]
     step = params[0] if params else None
+    from .common import deref
+    dfn = deref(fn, fn)
     snap_names = set()
-    for s in ast.walk(fn):
+    for s in ast.walk(dfn):
         if isinstance(s, ast.Assign) and len(s.targets) == 1 and isinstance(s.targets[0], ast.Name) and is_self_attr(s.value, "solver_state"):
             snap_names.add(s.targets[0].id)
-    mgr_calls = [c for c in calls_in(fn) if isinstance(c.func, ast.Attribute) and c.func.attr == "save"
+    mgr_calls = [c for c in calls_in(dfn) if isinstance(c.func, ast.Attribute) and c.func.attr == "save"
                  and is_self_attr(c.func.value, "checkpoint_manager")]
     ok, why = True, "save(step) passes `step` and StandardSave(self.solver_state snapshot) to checkpoint_manager.save"
     if len(mgr_calls) != 1:
